@@ -29,7 +29,7 @@ CLAIMED.update({
 CLAIMED.update({
     "C02": ("model_checking",
             "stateless exploration of environment answers: the harness plays the user function, enumerates every answer sequence over a 7-letter alphabet at the first 6 (quick) / 7-8 (thorough) queries with prefix-replaying DFS, oracle = certificate over all continuous completions; plus complete family products and one-request-per-child diagnostics",
-            "An execution of Find_Root is determined by the answers it receives; every finite set of (abscissa, value) pairs is consistent with a continuous function, so enumerating all answer sequences is enumerating all continuous functions up to the depth bound. On every execution: all abscissae and the result lie in the bracket, (a,b) and (b,a) give identical queries and bits, and the recorded answers contain a zero or an adjacent opposite-sign pair within the accuracy of the result (equivalent to: every continuous function consistent with what was seen changes sign within the accuracy). Violations are materialised as a piecewise-linear function and replayed as a plain call. Concrete families (power laws over 13 decades, saturating CDF-like functions, inflection, multiple roots, linear) are enumerated completely over brackets x 9 accuracies x both orders. Power laws also on brackets [1e-k,1e+k] up to 600 decades; a second answer alphabet {-1,-1e-200,0,1e-200,1}; NaN at one end together with a zero at the other must terminate.",
+            "An execution of Find_Root is determined by the answers it receives; every finite set of (abscissa, value) pairs is consistent with a continuous function, so enumerating all answer sequences is enumerating all continuous functions up to the depth bound. On every execution: all abscissae and the result lie in the bracket, (a,b) and (b,a) give identical queries and bits, and the recorded answers contain a zero or an adjacent opposite-sign pair within the accuracy of the result (equivalent to: every continuous function consistent with what was seen changes sign within the accuracy). Violations are materialised as a piecewise-linear function and replayed as a plain call. Concrete families (power laws over 13 decades, saturating CDF-like functions, inflection, multiple roots, linear) are enumerated completely over brackets x 9 accuracies x both orders. Power laws also on brackets [1e-k,1e+k] up to 600 decades; a second answer alphabet {-1,-1e-200,0,1e-200,1}; NaN at one end together with a zero at the other must terminate. Both ends zero: one of them is returned. The reversed bracket is judged by the same clauses on its own evaluations (not by equality with the forward call). Call histories over 9 request letters.",
             "Deviations are confined to the first D queries (later queries are answered by the piecewise-linear interpolant of earlier answers); answer alphabet {0, +-1e-6, +-1, +-1e6}; 'within accuracy' allows 4 ulp of the abscissa.",
             "§3 C02"),
 })
@@ -42,7 +42,7 @@ CLAIMED.update({
             "§3 C03"),
     "C11": ("model_checking",
             "stateless exploration of environment answers: the harness plays the objective for Find_Minimum/Find_Maximum and Minimization::minimize (every answer sequence over 6 letters at the first 7 (quick) / 8 (thorough) evaluations, then a convex default bowl); complete products of unimodal 1D objectives and quadratic bowls d<=6",
-            "'Never worse than the start' and the consistency of the reported state (fmin, y, best-first simplex, nfunc) are statements about every objective; an execution is determined by the objective values it sees, so all answer sequences up to the depth bound are enumerated on the real code and the clauses are checked on each (Find_Maximum(-f) must issue identical queries and return identical bits). Convergence is decided on complete products objective x start x tolerance (1D) and dimension x condition x rotation x offset x scale x ftol (bowls), with the three overloads compared bitwise. Unequal, non-palindromic deltas: the first d+1 evaluations are the documented simplex and the result equals that of the simplex overload; a second minimize() on the same object equals a fresh object (value, fmin, nfunc). Symmetric bowls from every half-integer lattice start (exact ties between vertex values) with optimum values 0, -2.5, -1000: no exit, descent, state consistency; on every normal return of every Nelder-Mead part the vertex values satisfy the documented fractional tolerance.",
+            "'Never worse than the start' and the consistency of the reported state (fmin, y, best-first simplex, nfunc) are statements about every objective; an execution is determined by the objective values it sees, so all answer sequences up to the depth bound are enumerated on the real code and the clauses are checked on each (Find_Maximum(-f) must issue identical queries and return identical bits). Convergence is decided on complete products objective x start x tolerance (1D) and dimension x condition x rotation x offset x scale x ftol (bowls), with the three overloads compared bitwise. Unequal, non-palindromic deltas: the first d+1 evaluations are the documented simplex and the result equals that of the simplex overload; a second minimize() on the same object equals a fresh object (value, fmin, nfunc). Symmetric bowls from every half-integer lattice start (exact ties between vertex values) with optimum values 0, -2.5, -1000: no exit, descent, state consistency; on every normal return of every Nelder-Mead part the vertex values satisfy the documented fractional tolerance. Seven asymmetric / non-quadratic unimodal wells and the Lennard-Jones wells from a sweep of 72 start pairs.",
             "An execution that ends in the library's iteration-cap exit under an adversarial objective is permitted and counted (link-time interposition of exit()); on unimodal objectives and convex bowls it is a violation. Bowl distance bound sqrt(20*ftol*(|f*|+1e-10)/lambda_min) as fixed in DESIGN.md; eight bowl inputs that exceed it are recorded in KNOWN_FINDINGS.txt.",
             "§3 C11"),
 })
@@ -50,7 +50,7 @@ CLAIMED.update({
 CLAIMED.update({
     "C04": ("exploration",
             "bounded-exhaustive enumeration of all shape triples (m,n,k)<=5 (quick) / <=8 (thorough) x all ordered pairs of 7 fill patterns with exact (dyadic) arithmetic so every oracle is an equality; every ordered pair of shapes for the element-wise operators in child processes under ASan/UBSan",
-            "Every operator spelling (member functions, operators, compound assignment, free operators) is compared entry by entry with its definition on operands whose sums and products are exact in binary64, for every shape triple up to the bound including all non-square ones; transpose/identity/involution laws, matrix-vector/vector-matrix/outer/dot/cross against products of row and column matrices, Trace, Norm, predicates with every single-entry perturbation, Sub_Matrix/Delete/Return for every index, block constructor for every 2x2 arrangement with block dimensions 0..3. For every ordered pair of shapes the element-wise operations must return iff the shapes are equal, else exit with a diagnostic and no sanitizer report. Object histories: all sequences (depth 3, thorough 4 for Vector) of 13 Vector / 14 Matrix letters (queries and in-place mutations); after every step all observations of the used object equal those of a fresh object with the same visible contents. Two of the nine fill patterns live at the scales 2^-80 and 2^80.",
+            "Every operator spelling (member functions, operators, compound assignment, free operators) is compared entry by entry with its definition on operands whose sums and products are exact in binary64, for every shape triple up to the bound including all non-square ones; transpose/identity/involution laws, matrix-vector/vector-matrix/outer/dot/cross against products of row and column matrices, Trace, Norm, predicates with every single-entry perturbation, Sub_Matrix/Delete/Return for every index, block constructor for every 2x2 arrangement with block dimensions 0..3. For every ordered pair of shapes the element-wise operations must return iff the shapes are equal, else exit with a diagnostic and no sanitizer report. Object histories: all sequences (depth 3, thorough 4 for Vector) of 13 Vector / 14 Matrix letters (queries and in-place mutations); after every step all observations of the used object equal those of a fresh object with the same visible contents. Two of the nine fill patterns live at the scales 2^-80 and 2^80. A tenth pattern is not representable in single precision. Products are conformable exactly when the inner dimensions agree, for every pair of shapes and every spelling, also with an identity on the right.",
             "Entries come from 7 deterministic patterns over half-integers and powers of two (not arbitrary reals): rounding behaviour of inexact sums is outside this check; scalar multiplication and division are also run with the scalars 3, -7, 0.1 and 1.5, where each entry is one correctly rounded binary64 operation.",
             "§3 C04"),
 })
@@ -63,7 +63,7 @@ CLAIMED.update({
             "§3 C05"),
     "C15": ("exploration",
             "bounded-exhaustive enumeration of structured families n<=5 (quick) / n<=7 (thorough): QR on integer/graded/all non-singular 3x3 matrices; symmetric M = Q diag(lambda) Q^T for every member of a finite orthogonal family x eigenvalue ratio patterns x sign patterns, against long-double cyclic Jacobi; every Eigensystem/Eigenvectors call in its own child process with a 2 s limit",
-            "QR: Q^T Q = I and QR = M within 16 n^2 u, R exactly zero below the diagonal, on every enumerated non-singular matrix. Eigenvalues: spectrum equals the Jacobi reference as a multiset, sums to the trace, multiplies to the determinant. Eigensystem/Eigenvectors: must terminate (time-bounded child), return n unit vectors, each an eigenpair within 1e-8*|M|, each reference eigenvalue represented once - including diagonal and block-diagonal matrices and eigenvectors with zero components, which is where the pinned code aborted or looped. The argument matrix must come back bit-identical; Eigenvectors() must equal Eigensystem().second up to signs; call histories over QR/Inverse/Eigenvalues/Eigensystem letters on four matrices.",
+            "QR: Q^T Q = I and QR = M within 16 n^2 u, R exactly zero below the diagonal, on every enumerated non-singular matrix. Eigenvalues: spectrum equals the Jacobi reference as a multiset, sums to the trace, multiplies to the determinant. Eigensystem/Eigenvectors: must terminate (time-bounded child), return n unit vectors, each an eigenpair within 1e-8*|M|, each reference eigenvalue represented once - including diagonal and block-diagonal matrices and eigenvectors with zero components, which is where the pinned code aborted or looped. The argument matrix must come back bit-identical; Eigenvectors() must equal Eigensystem().second up to signs; call histories over QR/Inverse/Eigenvalues/Eigensystem letters on four matrices. Every spectrum also in ascending order and with neighbours exchanged; rotations by 1e-7..3e-10; QR on geometric singular values up to cond 1e6.",
             "Orthogonal family and ratio patterns are finite lists (signed permutations, Givens products with angles pi/6, pi/4, pi/3, 1, rotations in the planes (i,i+2) giving checkerboard matrices, Householder reflectors of integer vectors; ratios 0.1..0.8). Overall magnitudes 1, 40, 1e-7, 1e7 (thorough also 1e-30, 1e30, 3e-4); QR families include nearly triangular matrices with sub-diagonal parts of relative size 1e-6..1e-15.",
             "§3 C15"),
 })
@@ -71,7 +71,7 @@ CLAIMED.update({
 CLAIMED.update({
     "C16": ("exploration",
             "bounded-exhaustive enumeration: complete product of 101 angles x 98 axes x 3 axis lengths for the rotations, and r x 25 polar x 24 azimuthal angles x the same axes for the spherical coordinates, each case compared with long-double geometry",
-            "Every enumerated Rotation_Matrix is checked for R^T R = I, det = 1, R n = n, R v = cos(a) v + sin(a) n x v for v perpendicular to n, and R(a)R(b) = R(a+b), within 16u; every Spherical_Coordinates result for norm r, v.n = r cos(theta) within 16u r and right-handed progression in phi; axis +z and the plain overload bitwise against the closed form. The axis list contains both poles and directions 1e-12, 1e-8, 1e-4 away from them, which is where a division by sqrt(1-n_z^2) breaks. Angles include 1e-12..1e-2 around every multiple of pi/2; v(phi) is compared with r(cos(theta) n + sin(theta)(cos(phi) e1 + sin(phi) e2)) (frame from v(0)) on the ring and on azimuths 1e-9..1e-3 next to the multiples of pi/2; every ordered pair of axes is requested back to back and must not influence each other; Angle for every pair of the axis alphabet including parallel and antiparallel pairs.",
+            "Every enumerated Rotation_Matrix is checked for R^T R = I, det = 1, R n = n, R v = cos(a) v + sin(a) n x v for v perpendicular to n, and R(a)R(b) = R(a+b), within 16u; every Spherical_Coordinates result for norm r, v.n = r cos(theta) within 16u r and right-handed progression in phi; axis +z and the plain overload bitwise against the closed form. The axis list contains both poles and directions 1e-12, 1e-8, 1e-4 away from them, which is where a division by sqrt(1-n_z^2) breaks. Angles include 1e-12..1e-2 around every multiple of pi/2; v(phi) is compared with r(cos(theta) n + sin(theta)(cos(phi) e1 + sin(phi) e2)) (frame from v(0)) on the ring and on azimuths 1e-9..1e-3 next to the multiples of pi/2; every ordered pair of axes is requested back to back and must not influence each other; Angle for every pair of the axis alphabet including parallel and antiparallel pairs. Radii 1e-6..1e6 with every axis length.",
             "Angles and axes are the stated finite lists (all multiples of pi/12 in [-4pi,4pi] plus four irrational angles; coordinate, diagonal, (1,2,3)-permutation and near-pole axes with lengths 1e-6, 1, 1e6).",
             "§3 C16"),
 })
@@ -87,7 +87,7 @@ CLAIMED.update({
 CLAIMED.update({
     "C06": ("model_checking",
             "explicit-state BFS to fixpoint over the global factorial memo (state = memo contents, every Factorial/Binomial_Coefficient letter applied in every reachable state, oracle = fresh memo) plus complete grids against two mutually checking long-double references (positive series and Lentz continued fraction)",
-            "The memo makes Factorial/Binomial_Coefficient a function of the call history; all 171 reachable memo states are visited and all 315 letters executed in each, so 'every call order' is decided, not sampled. Binomial_Coefficient is checked for all 0<=k<=n<=400 (Pascal, symmetry, exact integer where the rounding bound allows), GammaLn/Gamma on 2001 points within 16u in the logarithm, P and Q on an (a,x) grid dense around x=a+1 and a=100 (range, P+Q=1, monotone in x, 1e-12 / 1e-3 against the reference, Upper+Lower=Gamma), and the inverses on 60 probabilities for every a of the grid. GammaLn/Gamma on 4443 points from 1e-300 to 1e300.",
+            "The memo makes Factorial/Binomial_Coefficient a function of the call history; all 171 reachable memo states are visited and all 315 letters executed in each, so 'every call order' is decided, not sampled. Binomial_Coefficient is checked for all 0<=k<=n<=400 (Pascal, symmetry, exact integer where the rounding bound allows), GammaLn/Gamma on 2001 points within 16u in the logarithm, P and Q on an (a,x) grid dense around x=a+1 and a=100 (range, P+Q=1, monotone in x, 1e-12 / 1e-3 against the reference, Upper+Lower=Gamma), and the inverses on 60 probabilities for every a of the grid. GammaLn/Gamma on 4443 points from 1e-300 to 1e300. Shape parameters within 1e-12..3e-9 (relative) of the integers 1..31. Call histories over the whole family.",
             "Grid, not continuum: a on 47 (quick) / 407 (thorough) values of (1e-3,1e4], x on 200 / 2000 points per a plus the switch-over neighbourhoods. Inverse cases whose solution lies below the normal double range (tiny a, small p) are excluded and counted. The two reference methods must agree (count of unresolved points is reported and is 0).",
             "§3 C06"),
 })
@@ -103,7 +103,7 @@ CLAIMED.update({
 CLAIMED.update({
     "C17": ("exploration",
             "bounded-exhaustive enumeration: Round on every d-digit mantissa x every decimal exponent (d<=3 all of -299..299; d=4 all exponents in thorough; d=5..7 at three exponents) each with its nextafter neighbours and the half-way point +-1 ulp; Dawson/Erfi/Inv_Erf on complete grids against long-double quadrature / Newton references; all pairs of a 12-value alphabet for the comparison helpers; all (l,m) with l<=12 x 144 directions for the harmonics",
-            "Oddness and idempotence of Round are demanded bit for bit, monotonicity along the sorted enumeration and the half-unit bound on 2.3e7 (quick) / 5.8e8 (thorough) arguments that sit exactly at and next to every representable decimal boundary - the places two hand-picked numbers never reach. Dawson within 2e-7 absolutely, Erfi within 1e-6 relatively, Inv_Erf within 1e-4 of a long-double inverse up to 1-1e-12; Sign/StepFunction/Relative_Difference/Floats_Equal consistent, reflexive and symmetric on all pairs including signed zeros and subnormals; Y_{l,-m} conjugation symmetry, vector Y = radial unit vector times Y_lm, Psi tangential and equal to theta^ dY/dtheta + phi^ (im/sin theta) Y with the derivative from the ladder relation, for every (l,m). Inv_Erf: oddness up to the last doubles below one and at the ends +-1 (saturation values); accuracy 1e-4 on the stated range |p| <= 1-1e-12.",
+            "Oddness and idempotence of Round are demanded bit for bit, monotonicity along the sorted enumeration and the half-unit bound on 2.3e7 (quick) / 5.8e8 (thorough) arguments that sit exactly at and next to every representable decimal boundary - the places two hand-picked numbers never reach. Dawson within 2e-7 absolutely, Erfi within 1e-6 relatively, Inv_Erf within 1e-4 of a long-double inverse up to 1-1e-12; Sign/StepFunction/Relative_Difference/Floats_Equal consistent, reflexive and symmetric on all pairs including signed zeros and subnormals; Y_{l,-m} conjugation symmetry, vector Y = radial unit vector times Y_lm, Psi tangential and equal to theta^ dY/dtheta + phi^ (im/sin theta) Y with the derivative from the ladder relation, for every (l,m). Inv_Erf: oddness up to the last doubles below one and at the ends +-1 (saturation values); accuracy 1e-4 on the stated range |p| <= 1-1e-12. Psi at a pole equals its limit along the meridian; Round(Vector/Matrix) element-wise on every shape.",
             "Grids, not the continuum, for Dawson/Erfi/Inv_Erf (|x|<=30 in steps of 1/64 plus both sides of |x|=0.2). The Psi identity is checked for sin(theta) > 1e-7 with a tolerance growing like 1/sin(theta); at the poles only tangentiality is checked.",
             "§3 C17"),
 })
@@ -111,12 +111,12 @@ CLAIMED.update({
 CLAIMED.update({
     "C12": ("exploration",
             "bounded-exhaustive enumeration of all orders n=1..128 (quick) / 1..512 plus eight orders up to 4000 (thorough) x 7 intervals (shifted, far from the origin, reversed), each rule checked against its reference-free definition and against a long-double Newton reference",
-            "Order-dependent errors (odd n, large n, the mirror assignment, the middle node written twice, shifted or reversed intervals) are invisible to the single even order the tests use; here every order is built and checked for strictly monotone nodes strictly inside the interval, node and weight symmetry (weights bit for bit), weight sign, sum of weights, exact integration of every Legendre polynomial and monomial of degree k<=min(2n-1,60), agreement of nodes (few ulp) and weights (L1 norm) with an independent long-double rule, identical bits from the three Integrate_Gauss_Legendre overloads and rejection of mismatched lengths. Intervals include widths below 1e-16 at the origin; all ordered pairs of orders up to 32 (thorough 64) are requested back to back through both entry points and must give identical bits.",
+            "Order-dependent errors (odd n, large n, the mirror assignment, the middle node written twice, shifted or reversed intervals) are invisible to the single even order the tests use; here every order is built and checked for strictly monotone nodes strictly inside the interval, node and weight symmetry (weights bit for bit), weight sign, sum of weights, exact integration of every Legendre polynomial and monomial of degree k<=min(2n-1,60), agreement of nodes (few ulp) and weights (L1 norm) with an independent long-double rule, identical bits from the three Integrate_Gauss_Legendre overloads and rejection of mismatched lengths. Intervals include widths below 1e-16 at the origin; all ordered pairs of orders up to 32 (thorough 64) are requested back to back through both entry points and must give identical bits. Intervals of width exactly 1 and 2 away from the origin; orders beyond the complete range up to 4096 (every 37th / 5th and the powers of two with their neighbours), each first in a child with a time limit.",
             "Exactness is checked directly only up to degree 60 (conditioning); above that it follows from agreement with the reference rule. Tolerances are O(n)u (rounding of the three-term recurrence), not fitted.",
             "§3 C12"),
     "C13": ("exploration",
             "bounded-exhaustive enumeration over configurations: 6 method names x 19 smooth integrands x 4 intervals x {default, explicit} method_parameter in both orientations and with equal limits; Integrate_2D/3D for every method x every orientation of every axis with different factors and disjoint ranges per axis; spherical overload on angular sub-ranges",
-            "The repository's multi-dimensional tests use integrands symmetric under exchange of variables on identical limits, so a swapped argument or limit cannot show; here every axis has its own range and its own factor, every argument handed to the integrand is recorded and must lie in the range of its own pair of limits, and the result must be the signed product of the 1D integrals. 1D: every method within its stated accuracy relative to kappa = int|f|/|int f|, reversed limits the bitwise negation, equal limits exactly 0, abscissae inside the interval. Spherical overload: norm in the shell, z/r in the cos(theta) range, azimuth in the phi range, result = solid angle x radial integral. Intervals narrower than 1e-12 ([1,1+2^-41], [0,1e-13], [-3e-14,2e-14]) against a 24-point long-double rule; call histories: all sequences (depth 3, thorough 4) of 14 request letters (every method, explicit node counts, 2D/3D nested requests) give identical bits per letter, explicit Gauss-Legendre_2 node counts equal the textbook n-point rule.",
+            "The repository's multi-dimensional tests use integrands symmetric under exchange of variables on identical limits, so a swapped argument or limit cannot show; here every axis has its own range and its own factor, every argument handed to the integrand is recorded and must lie in the range of its own pair of limits, and the result must be the signed product of the 1D integrals. 1D: every method within its stated accuracy relative to kappa = int|f|/|int f|, reversed limits the bitwise negation, equal limits exactly 0, abscissae inside the interval. Spherical overload: norm in the shell, z/r in the cos(theta) range, azimuth in the phi range, result = solid angle x radial integral. Intervals narrower than 1e-12 ([1,1+2^-41], [0,1e-13], [-3e-14,2e-14]) against a 24-point long-double rule; call histories: all sequences (depth 3, thorough 4) of 14 request letters (every method, explicit node counts, 2D/3D nested requests) give identical bits per letter, explicit Gauss-Legendre_2 node counts equal the textbook n-point rule. Explicit parameters 1, 2, 7 for the four methods that take none; the spherical overload also with defaulted angles.",
             "Integrand families are finite lists (damped cosines up to two periods, Lorentzian, 1/(x+s), Gaussians); 3D Trapezoidal uses factors linear in y and z (the boost rule would otherwise need 7e10 evaluations). One integrand on which the trapezoidal rule misses 1e-6 by 6 % is recorded in KNOWN_FINDINGS.txt.",
             "§3 C13"),
 })
